@@ -46,6 +46,18 @@ def run_one(ctx, case, tot, fails, sample=False):
     return res
 
 
+def _cases(ctx, name, header, exprs, **kw):
+    """ctx.run_cases, except that with a broken Coq build the comparison is skipped (the break itself is
+    reported by finish(); the monitors still search for a failing input)"""
+    if ctx.broken_obligations:
+        try:
+            return ctx.run_cases(name, header, exprs, **kw)
+        except core.CheckError as e:
+            ctx.notes.append("comparison %s skipped, Coq side broken: %s" % (name, str(e)[:200]))
+            return [0] * len(exprs)
+    return ctx.run_cases(name, header, exprs, **kw)
+
+
 def run(ctx, only=None):
     ctx.rule = ("real WorkflowClient.get_workflow_events over httpx.MockTransport serving the real _stream_events / "
                 "format_stream output (real MemoryWorkflowStore, events appended over virtual time so that heartbeats "
@@ -56,6 +68,11 @@ def run(ctx, only=None):
                 "whole response; distinct key = (stream length, cursor class, filter, limit, outcome, kinds of cut "
                 "positions, number of requests)")
     ctx.prove()
+    # the comparator is not a dependency of the property file: build it explicitly (a failure is a broken
+    # obligation; the implementation-side monitors below still run and report a concrete input if there is one)
+    ok, out = core.coq_make(["theories/Model/SseClientEnc.vo"])
+    if not ok:
+        ctx.broken_obligations.append(("make theories/Model/SseClientEnc.vo", out[-3000:]))
     ctx.trusted.append("source-slice loader: _WorkflowAPI._stream_events (with format_stream) and "
                        "_resolve_event_stream executed from the text of _api.py; HTTPException / StreamingResponse / "
                        "Request replaced by stand-ins; httpx.MockTransport instead of a socket")
@@ -92,7 +109,7 @@ def run(ctx, only=None):
                 exprs.append(b)
                 meta.append((case, res, "body"))
                 body_terms += 1
-    results = ctx.run_cases("sseclient", SC.HEADER, exprs, shard=8)
+    results = _cases(ctx, "sseclient", SC.HEADER, exprs, shard=8)
     bad = [(meta[i], results[i]) for i in range(len(results)) if results[i] != 0]
     # ---- one drop at every byte offset of the whole response ------------------------------------------
     n_exh = 0
@@ -112,7 +129,7 @@ def run(ctx, only=None):
                 ex.append(SC.coq_case_named(c, res))
                 mt.append((c, res, "client"))
                 n_exh += 1
-            rs = ctx.run_cases("sse_exhaustive_%d" % si, SC.header_for(case, base), ex, shard=40)
+            rs = _cases(ctx, "sse_exhaustive_%d" % si, SC.header_for(case, base), ex, shard=40)
             bad += [(mt[i], rs[i]) for i in range(len(rs)) if rs[i] != 0]
     ctx.programs += tot["executions"]
     ctx.disagreements += len(bad)
